@@ -44,6 +44,7 @@ type aggregate struct {
 
 	runs              int
 	cases             int
+	extraDistinct     int // distinct cases counted inside the workers (different seeds)
 	events            int
 	inconclusive      int
 	nontriv           int
@@ -93,7 +94,8 @@ func (a *aggregate) add(r *runResult) {
 		for _, h := range r.rep.Cases {
 			a.shapes[h]++
 		}
-		a.nontriv += len(r.rep.Cases)
+		a.nontriv += len(r.rep.Cases) + r.rep.DistinctCases
+		a.extraDistinct += r.rep.DistinctCases
 		if len(a.samples) < 2 {
 			a.samples = append(a.samples, map[string]interface{}{"run": r.spec.name, "cases": r.rep.CaseCount, "nontrivial_cases": len(r.rep.Cases), "wall_ms": r.wallMs})
 		}
@@ -151,7 +153,7 @@ func (a *aggregate) evidence(tier string, seed int64, wall float64) map[string]i
 	cov := map[string]interface{}{
 		"evaluations":         a.runs + a.cases,
 		"runs":                a.runs,
-		"distinct_nontrivial": len(a.shapes),
+		"distinct_nontrivial": len(a.shapes) + a.extraDistinct,
 		"nontrivial_runs":     a.nontriv,
 		"rule":                a.spec.Rule,
 		"events_observed":     a.events,
